@@ -51,3 +51,9 @@ def node_sexp(text):
 def to_model(dbg):
     nodes, decls = nodes_of_debug(dbg)
     return "(" + " ".join(node_sexp(n) for n in nodes) + ")", decls, len(nodes)
+
+
+def nodes_text(dbg):
+    """the names of the nodes of a Debug dump, one per line (payloads dropped)"""
+    nodes, _ = nodes_of_debug(dbg)
+    return "\n".join(re.match(r"\w+", n).group(0) for n in nodes if re.match(r"\w+", n))
